@@ -1389,7 +1389,7 @@ func main() {
 			out.Put(Case{ID: i, Query: q, Class: class, Runs: 1, Ctx: Ctx{
 				FromNs: from, ToNs: from + int64(1+r.Intn(7200))*1e9,
 				Limit: []int64{0, 0, 1, 2, 3, 100}[r.Intn(6)], Asc: r.Intn(2) == 0, Cluster: false,
-				Type: []uint8{0, 1, 1, 2}[r.Intn(4)], Finalize: true, StepMs: 1000,
+				Type: []uint8{0, 1, 1, 2}[r.Intn(4)], Finalize: r.Intn(6) != 0, StepMs: 1000,
 			}})
 		}
 	case "regroups":
